@@ -65,7 +65,7 @@ def op_cases(tier):
 
 def cases(tier, seed):
     oc = op_cases(tier)
-    return [{"ops": oc[i:i + PACK]} for i in range(0, len(oc), PACK)]
+    return [{"ops": oc[i:i + PACK], "refs": r} for r in (False, True) for i in range(0, len(oc), PACK)]
 
 
 # ----------------------------------------------------------------------------------------------
@@ -75,21 +75,27 @@ def stream_bodies(kind):
     items3 = [ops.ITEM_BODIES[0], ops.ITEM_BODIES[1], {"id": 3}]
     out = []
     for items in (items1, items3):
+        framings = [("std", None)]
         if kind == "event-stream":
-            data = b"".join(b"data: " + json.dumps(x).encode() + b"\n\n" for x in items)
-            ctype = "text/event-stream"
-        else:
-            data = b"".join(json.dumps(x).encode() + b"\n" for x in items)
-            ctype = "application/x-ndjson"
-        n = len(data)
-        for label, cuts in (("whole", []), ("2-chunks", [n // 2]), ("3-chunks", [n // 3, 2 * n // 3])):
-            chunks = []
-            a = 0
-            for c in cuts:
-                chunks.append(data[a:c])
-                a = c
-            chunks.append(data[a:])
-            out.append((f"{len(items)}-items/{label}", ctype, chunks, items))
+            framings = [("std", (b"data: ", b"\n\n")), ("nospace", (b"data:", b"\n\n")), ("crlf", (b"data: ", b"\r\n\r\n")),
+                        ("comment+id", (b": keep-alive\nid: 1\ndata: ", b"\n\n"))]
+        for fname, fr in framings:
+            if kind == "event-stream":
+                data = b"".join(fr[0] + json.dumps(x).encode() + fr[1] for x in items)
+                ctype = "text/event-stream"
+            else:
+                data = b"".join(json.dumps(x).encode() + b"\n" for x in items)
+                ctype = "application/x-ndjson"
+            n = len(data)
+            splits = (("whole", []), ("2-chunks", [n // 2]), ("3-chunks", [n // 3, 2 * n // 3])) if fname == "std" else (("whole", []), ("2-chunks", [n // 2]))
+            for label, cuts in splits:
+                chunks = []
+                a = 0
+                for c in cuts:
+                    chunks.append(data[a:c])
+                    a = c
+                chunks.append(data[a:])
+                out.append((f"{len(items)}-items/{fname}/{label}", ctype, chunks, items))
     return out
 
 
@@ -155,7 +161,8 @@ def exc_disc(e):
 
 def run_case(case):
     cs = case["ops"]
-    res = driven.drive_pack(cs, make_calls, "bundled")
+    refs = bool(case.get("refs"))
+    res = driven.drive_pack(cs, make_calls, "bundled", refs=refs)
     found = []
     seen = set()
     nontriv = []
@@ -173,7 +180,7 @@ def run_case(case):
             if rec is None:
                 raise HarnessError("missing record")
             ncalls += 1
-            key = f"{ops.describe(c)}|{label}"
+            key = f"{ops.describe(c)}|{label}" + ("|via-component-refs" if refs else "")
             nontriv.append(key)
 
             def add(disc, detail, role=role, kind=kind, key=key):
